@@ -385,6 +385,9 @@ pub fn declare_missing(r: &mut Rng, a: &mut ANode, reg: &Reg, pool: &Pool, perce
                     sc.retain(|(q, _)| *q != p);
                     sc.push((p, n));
                 }
+                // the one legal declaration of the XML namespace, xmlns:xml="http://www.w3.org/XML/1998/namespace" (registry prefix 1,
+                // namespace 1): now and then, also as the only declaration of an element
+                if r.chance(1, 12) && !ns.iter().any(|(p, _)| *p == 1) { ns.push((1, 1)); }
                 for k in kids.iter_mut() { walk(r, k, reg, pool, percent, &sc); }
             }
             _ => {}
